@@ -113,7 +113,11 @@ pub fn monitored_with_capacity<T>(capacity: usize) -> Vec<T> {
     let bytes = (capacity as u128) * (core::mem::size_of::<T>() as u128);
     let budget = unsafe { INPUT_LEN as u128 } * 128 + 256;
     assert!(bytes <= budget, "C10: decoder requests an allocation that is not proportional to the input size");
-    Vec::new()
+    // keep the capacity guarantee callers may rely on (std writes through raw pointers after with_capacity);
+    // reserve_exact is not stubbed. A request over budget has already failed the assertion above.
+    let mut v = Vec::new();
+    v.reserve_exact(if bytes <= budget { capacity } else { 0 });
+    v
 }
 
 /// One decode of an arbitrary buffer of CONCRETE length `N` whose first byte (the value tag) is the
